@@ -38,7 +38,7 @@ def frames(kind):
 
 
 # ------------------------------------------------------------------------------------------ level 1
-def run_l1(devs, budgets, state="SEL", stream="d9", k=0, action="peer_close", split=None):
+def run_l1(devs, budgets, state="SEL", stream="d9", k=0, action="peer_close", split=None, traced=False):
     box = {"steps": []}
     data = b"".join(frames(stream))
 
@@ -116,9 +116,9 @@ def run_l1(devs, budgets, state="SEL", stream="d9", k=0, action="peer_close", sp
         proto.disable()
         box["steps"].append(("final-disable-returned",))
 
-    sched = vrt.run(driver, devs, budgets, max_steps=400000, max_time=3600.0, line_points=False)
+    sched = vrt.run(driver, devs, budgets, max_steps=400000, max_time=3600.0, line_points=traced)
     res = {"trace": sched.trace, "v": []}
-    case = {"part": "l1", "state": state, "stream": stream, "k": k, "action": action, "split": split}
+    case = {"part": "l1", "state": state, "stream": stream, "k": k, "action": action, "split": split, "traced": traced}
     if sched.harness_failure or sched.driver_exception:
         res["harness"] = (sched.harness_failure or sched.driver_exception)[-1200:]
         res["obs"] = None
@@ -154,6 +154,14 @@ def _offset_class(stream, k):
 
 
 # ------------------------------------------------------------------------------------------ level 2
+REGION_L1 = [
+    "secsgem.common.protocol_dispatcher:ProtocolDispatcher.*",
+    "secsgem.hsms.protocol:HsmsProtocol._on_connected",
+    "secsgem.hsms.protocol:HsmsProtocol._on_disconnecting",
+    "secsgem.hsms.protocol:HsmsProtocol._on_disconnected",
+    "secsgem.common.protocol:Protocol.enable",
+    "secsgem.common.protocol:Protocol.disable",
+]
 REGION_L2 = [
     "secsgem.common.tcp_server_connection:TcpServerConnection.*",
     "secsgem.common.tcp_client_connection:TcpClientConnection.*",
@@ -333,9 +341,10 @@ def run(ctx):
         "TcpClientConnection over the kernel model mc/vnet.py",
         "a step 'completes' if the driver gets past it before the virtual-time horizon (600 s level 2, 3600 s level 1) and the step horizon; "
         "spin-waits are detected by repeated backward jumps",
-        "level 2 explores every schedule with <= K delays where every line of tcp_*connection.py is a scheduling point",
+        "level 2 explores every schedule with <= K delays where every line of tcp_*connection.py is a scheduling point; four level-1 scenarios "
+        "are explored with <= 1 delay where the lines of ProtocolDispatcher and of the protocol's connect/disconnect handlers are scheduling points",
     ]
-    missing = hh.trace_region(REGION_L2)
+    missing = hh.trace_region(REGION_L2 + REGION_L1)
     if missing:
         ctx.note(f"not line-traced (not found): {missing}")
     k = 2 if ctx.thorough else 1
@@ -353,7 +362,9 @@ def run(ctx):
         if ctx.out_of_time():
             break
     # one K=1 pass of a level-1 scenario family as well (schedules around the close sequence)
-    for cfg in ({"state": "SEL", "stream": "d9", "k": 9, "action": "peer_close"}, {"state": "SEL_OPEN", "stream": "d9d1", "k": 20, "action": "disable"}):
+    for cfg in ({"state": "SEL", "stream": "d9", "k": 9, "action": "peer_close"}, {"state": "SEL_OPEN", "stream": "d9d1", "k": 20, "action": "disable"},
+                {"state": "SEL", "stream": "sep", "k": 14, "action": "peer_close"}, {"state": "NS", "stream": "lt", "k": 14, "action": "disable"}):
+        cfg = dict(cfg, traced=True)
         st = explore.explore(ctx, run_l1, {"sched": 1}, f"c09-l1-sched-{cfg['stream']}-{cfg['action']}", opts=cfg, chunk=8)
         parts.append({"l1_schedules": cfg, "executions": st["executions"], "outcomes": st["distinct_outcomes"]})
         tot += st["executions"]
@@ -379,6 +390,8 @@ def replay(ctx, detail):
         hh.trace_region(REGION_L2)
         r = run_l2(devs, budgets, script=case["script"])
     else:
+        if case.get("traced"):
+            hh.trace_region(REGION_L1)
         r = run_l1(devs, budgets, **case)
     print("replayed:", r.get("obs"))
     ctx.evaluations += 1
